@@ -222,6 +222,19 @@ CHECKS['C17'] = ('model_checking', 'bytestream',
     'scripted server splits input at CRLF and bare LF; reply reference restricted to shapes where '
     'it agrees with RFC 959.', '5/C17')
 
+CHECKS['C09'] = ('exploration', 'enum',
+    'bounded-exhaustive edit-neighbourhood enumeration (distance 1, 2 for short grammars) of valid '
+    'traffic on every server-controlled input surface of the real clients, parsers and scrapers',
+    'Seeds: six HTTP responses, FTP replies in eight protocol positions, three listing dialects, '
+    'robots.txt, HTML/CSS/JavaScript/sitemap documents; every position x {delete, truncate, '
+    'replace/insert each of 24 interesting bytes}, line duplication/removal, all 2-edit pairs for '
+    'status line and chunk-size line; HTTP streams whole and byte-at-a-time (thorough). The real '
+    'Session/FTP Session/RobotsTxtChecker/DemuxDocumentScraper must return or raise one of the '
+    'per-URL error kinds; 12 end-to-end crawls check that a hostile response leaves the exit status '
+    'non-crash and siblings fetched.',
+    'only the stated edit neighbourhoods are covered: "raw random bytes" are outside a bounded '
+    'enumeration (DESIGN.md section 11).', '5/C09')
+
 NOT_YET = {}
 
 
